@@ -36,7 +36,7 @@ func checkC17(p *Prog, r *Report) {
 	sched := p.FuncByName("(*TimedSched).sched")
 	prepend := p.FuncByName("(*TimedSched).prepend")
 	put := p.FuncByName("(*TimedSched).Put")
-	recvS := tVar(p.recvVar(sched))
+	recvS := tVar(p.selfVar(sched))
 	chTask := p.Field("TimedSched", "chTask")
 	c := p.CFG(sched)
 
@@ -338,7 +338,7 @@ func checkC17(p *Prog, r *Report) {
 			if len(names) != 2 {
 				return true
 			}
-			h := tVar(p.recvVar(less))
+			h := tVar(p.selfVar(less))
 			ti := tFld(mk("idx", h, tVar(p.Info.Defs[names[0]])), fTs)
 			tj := tFld(mk("idx", h, tVar(p.Info.Defs[names[1]])), fTs)
 			if t.Op == "call" && t.Obj != nil && len(t.Args) == 2 {
@@ -577,7 +577,7 @@ func checkSchedHandOff(p *Prog, r *Report, put, prepend *FuncInfo) {
 	// ---- Put
 	{
 		c := p.CFG(put)
-		recv := tVar(p.recvVar(put))
+		recv := tVar(p.selfVar(put))
 		var appendPt Point
 		okAppend := false
 		for _, st := range p.FieldStores(fPend) {
@@ -706,7 +706,7 @@ func checkSchedHandOff(p *Prog, r *Report, put, prepend *FuncInfo) {
 	// ---- prepend
 	{
 		c := p.CFG(prepend)
-		recv := tVar(p.recvVar(prepend))
+		recv := tVar(p.selfVar(prepend))
 		// receives from the signal channel
 		var recvArms []*cfg.Block
 		nRecv := 0
@@ -729,20 +729,98 @@ func checkSchedHandOff(p *Prog, r *Report, put, prepend *FuncInfo) {
 		})
 		// the swap: tasks, ts.prependTasks = ts.prependTasks, tasks[:0] (or = nil) under the lock
 		var local *types.Var
-		isSwap := func(n ast.Node, _ Point) bool {
+		// swapAt: n (in fn, receiver rcv) is the swap  x, ts.prependTasks = ts.prependTasks, <empty>; returns x
+		swapAt := func(n ast.Node, rcv *Term) *types.Var {
 			as, ok := n.(*ast.AssignStmt)
 			if !ok || len(as.Lhs) != 2 || len(as.Rhs) != 2 {
-				return false
+				return nil
 			}
 			for i := 0; i < 2; i++ {
 				l, rr := p.Term(as.Lhs[i]), p.Term(as.Rhs[i])
 				l2, r2 := p.Term(as.Lhs[1-i]), p.Term(as.Rhs[1-i])
-				if l.Op == "var" && rr.Key() == tFld(recv, fPend).Key() && l2.Key() == tFld(recv, fPend).Key() {
+				if l.Op == "var" && rr.Key() == tFld(rcv, fPend).Key() && l2.Key() == tFld(rcv, fPend).Key() {
 					// the pending slice is replaced by an empty one
 					empty := r2.Op == "nil" || (r2.Op == "slice" && r2.Args[2] != nil && r2.Args[2].IsConst() && r2.Args[2].Int == 0)
 					if empty {
-						local, _ = l.Obj.(*types.Var)
-						return true
+						v, _ := l.Obj.(*types.Var)
+						return v
+					}
+				}
+			}
+			return nil
+		}
+		lockedAt := func(fn *FuncInfo, as ast.Node) bool {
+			cc := p.CFG(fn)
+			pt, _ := cc.PointOf(as)
+			var l, u = -1, -1
+			for i, n := range pt.B.Nodes {
+				if isLockOp(n, fn, "Lock") && i < pt.I {
+					l = i
+				}
+				if isLockOp(n, fn, "Unlock") && i > pt.I && u < 0 {
+					u = i
+				}
+			}
+			return l >= 0 && u >= 0
+		}
+		// swapHelper: a method of the scheduler that on every path takes the pending slice by the swap, under the lock,
+		// and returns what it took (the swap extracted from prepend)
+		swapHelper := func(h *FuncInfo) bool {
+			if h == nil || h.Body == nil || h.Lit != nil || p.selfVar(h) == nil {
+				return false
+			}
+			hr := tVar(p.selfVar(h))
+			hc := p.CFG(h)
+			var took *types.Var
+			var swapNode ast.Node
+			inspectBody(h, func(x ast.Node) bool {
+				if v := swapAt(x, hr); v != nil {
+					took, swapNode = v, x
+				}
+				return true
+			})
+			if took == nil || !lockedAt(h, swapNode) {
+				return false
+			}
+			// no path to the exit avoids the swap, and every return hands out what was taken
+			res := hc.FindPath(PathQuery{From: Point{hc.Entry(), 0}, ExitIsTarget: true, IsBarrier: func(n ast.Node, _ Point) bool { return n == swapNode }})
+			if res.Found {
+				return false
+			}
+			okRet := true
+			nRet := 0
+			inspectBody(h, func(x ast.Node) bool {
+				if rs, ok := x.(*ast.ReturnStmt); ok {
+					nRet++
+					if len(rs.Results) != 1 {
+						okRet = false
+					} else if t := p.Term(rs.Results[0]); !(t.Op == "var" && t.Obj == took) {
+						okRet = false
+					}
+				}
+				return true
+			})
+			if !okRet || nRet == 0 {
+				return false
+			}
+			// the taken variable is not assigned after the swap
+			return len(p.Assignments(h, took)) <= 1
+		}
+		helperSwapLocked := false
+		isSwap := func(n ast.Node, _ Point) bool {
+			if v := swapAt(n, recv); v != nil {
+				local = v
+				return true
+			}
+			// tasks = ts.swapPending(tasks)
+			if as, ok := n.(*ast.AssignStmt); ok && len(as.Lhs) == 1 && len(as.Rhs) == 1 {
+				if call, isC := ast.Unparen(as.Rhs[0]).(*ast.CallExpr); isC {
+					if f := p.Callee(call); f != nil && f.Pkg() == p.Types {
+						if l := p.Term(as.Lhs[0]); l.Op == "var" && swapHelper(p.FuncOf(f)) {
+							local, _ = l.Obj.(*types.Var)
+							helperSwapLocked = true
+							return true
+						}
 					}
 				}
 			}
@@ -768,17 +846,7 @@ func checkSchedHandOff(p *Prog, r *Report, put, prepend *FuncInfo) {
 		okLocked := false
 		ast.Inspect(prepend.Body, func(x ast.Node) bool {
 			if as, ok := x.(*ast.AssignStmt); ok && isSwap(as, Point{}) {
-				pt, _ := c.PointOf(as)
-				var l, u = -1, -1
-				for i, n := range pt.B.Nodes {
-					if isLockOp(n, prepend, "Lock") && i < pt.I {
-						l = i
-					}
-					if isLockOp(n, prepend, "Unlock") && i > pt.I && u < 0 {
-						u = i
-					}
-				}
-				okLocked = l >= 0 && u >= 0
+				okLocked = helperSwapLocked || lockedAt(prepend, as)
 			}
 			return true
 		})
